@@ -1,5 +1,5 @@
-// C03 finding D19 (tag "outer_unit_complex_zero"): outer(a,b) with a complex Tensor<T,1> operand returns zeros.
-//   g++ -std=c++14 -O2 -I/repo c03_d19_outer_unit_complex.cpp && ./a.out      (every ISA)
+// C03 finding C03-F4 (tag "outer_unit_complex_zero"): outer(a,b) with a complex Tensor<T,1> operand returns zeros.
+//   g++ -std=c++14 -O2 -I/repo c03_f4_outer_unit_complex.cpp && ./a.out      (every ISA)
 // The Tensor<T,1> overloads of outer (outerproduct.h) evaluate the expression  a * b.toscalar() ; for std::complex element
 // types the library evaluates scalar*tensor expressions to zero (the complex-expression defect of C02), so the outer product is 0.
 #include <Fastor/Fastor.h>
@@ -11,7 +11,7 @@ int main() {
     Tensor<C,4> a; Tensor<C,1> b;
     for (int i = 0; i < 4; ++i) a(i) = C(i + 1, i - 2);
     b(0) = C(1, -1);
-    auto r = outer(a, b);                                   // Tensor<C,4>  (the unit axis is dropped as well: finding D18)
+    auto r = outer(a, b);                                   // Tensor<C,4>  (the unit axis is dropped as well: finding C03-F3)
     auto e = einsum<Index<0>,Index<1>>(a, b);               // Tensor<C,4,1>, correct values
     for (int i = 0; i < 4; ++i)
         std::printf("outer %g%+gi   einsum %g%+gi   expected %g%+gi\n", r(i).real(), r(i).imag(), e(i,0).real(), e(i,0).imag(), (a(i) * b(0)).real(), (a(i) * b(0)).imag());
